@@ -163,7 +163,7 @@ class Ctx:
         self.decided[key] = (cond, choice)
         return choice
 
-    def choose(self, term, limit: int = 64) -> int:
+    def choose(self, term, limit: int = 64, rng=None) -> int:
         """K-way fork over the feasible values of a bit-vector term; returns the concrete value."""
         term = z3.simplify(term)
         if z3.is_bv_value(term):
@@ -179,17 +179,26 @@ class Ctx:
             return val
         # new K-way decision: enumerate feasible values lazily; trail entry = [value, seen_list]
         seen = []
-        val = self._next_value(term, seen)
+        val = self._next_value(term, seen, rng)
         if val is None:
             raise PathAbort('infeasible')
-        self.trail.append([val, ('K', term, seen, limit)])
+        self.trail.append([val, ('K', term, seen, limit, rng)])
         self._push(term == z3.BitVecVal(val, W))
         self.model = None
         self.decisions += 1
         self.pos += 1
         return val
 
-    def _next_value(self, term, seen):
+    def _next_value(self, term, seen, rng=None):
+        if rng is not None and rng[1] - rng[0] < 64:
+            # small sound interval: test the candidates one by one (equalities propagate, disequalities do not)
+            for v in range(rng[0], rng[1] + 1):
+                if v in seen:
+                    continue
+                seen.append(v)
+                if self._check(term == z3.BitVecVal(v, W)):
+                    return v
+            return None
         cons = [term != z3.BitVecVal(v, W) for v in seen]
         if not self._check(*cons):
             return None
@@ -209,10 +218,10 @@ class Ctx:
             ent = self.trail[-1]
             alts = ent[1]
             if isinstance(alts, tuple):             # K-way
-                _, term, seen, limit = alts
+                _, term, seen, limit, rng = alts
                 if len(seen) > limit:
                     raise Inconclusive(f'concretisation fan-out above {limit}')
-                val = self._next_value(term, seen)
+                val = self._next_value(term, seen, rng)
                 if val is not None:
                     ent[0] = val
                     self.model = None
@@ -466,6 +475,8 @@ class SymInt:
         ra, rb = ranges
         if SymBool(z3.And(a >= 0, b > 0)):
             qr = (0, ra[1]) if ra and ra[1] >= 0 else None
+            if ra and rb and rb[0] == rb[1] and rb[0] > 0 and ra[0] >= 0:
+                qr = (ra[0] // rb[0], ra[1] // rb[0])
             rr = (0, rb[1] - 1) if rb and rb[1] >= 1 else None
             return SymInt(z3.UDiv(a, b), qr), SymInt(z3.URem(a, b), rr)
         q, r = SymInt._floordivmod(a, b)
@@ -579,6 +590,8 @@ class SymInt:
             rr = (0, rb[1])
         elif ra and ra[0] >= 0:
             rr = (0, ra[1])
+        else:
+            rr = SymInt._bitrange(ra, rb)
         return SymInt(s.e & Z(o), rr)
     __rand__ = __and__
 
@@ -638,7 +651,7 @@ class SymInt:
 
     # -- conversions --
     def __index__(s):
-        return Ctx.cur.choose(s.e)
+        return Ctx.cur.choose(s.e, rng=s.rng)
 
     def bit_length(s):
         a = z3.If(s.e < 0, -s.e, s.e)
@@ -647,11 +660,12 @@ class SymInt:
         r = bvval(0)
         for k in range(0, W - 1):
             r = z3.If(z3.UGE(a, bvval(1 << k)), bvval(k + 1), r)
-        return SymInt(r, (0, W))
+        hi = max(abs(s.rng[0]), abs(s.rng[1])).bit_length() if s.rng else W
+        return SymInt(r, (0, hi))
 
     def to_bytes(s, length=1, byteorder='big', *, signed=False):
         if isinstance(length, SymInt):
-            length = Ctx.cur.choose(length.e)
+            length = Ctx.cur.choose(length.e, rng=length.rng)
         if isinstance(signed, SymBool):
             signed = bool(signed)
         n = length
